@@ -387,6 +387,52 @@ def run_t7(ctx, w, tb):
                       sample={"fn": f, "field": fld, "reset_at": [w.stmt_loc(f, p) for p in wr[fld]], "read_at": [w.stmt_loc(f, p) for p in rd[fld]]})
     ctx.floor("T7a", 2, "clear routines with a high-water mark")
 
+    ctx.rule("T7d", "a clear routine with a high-water mark clears its storage over a range that covers everything up to and including the mark (`..=mark`, `0..mark+1` or the whole array), not a fixed cell")
+    for f in sorted(clear_fns | sub):
+        b = w.body(f)
+        T = w.terms(f)
+        fo = w.facts.fns[f]
+        adt = (fo.get("impl_self") or {}).get("adt")
+        arrs = [x["name"] for x in (w.facts.struct_fields(adt) or []) if x["ty"]["s"].startswith("[")]
+        marks = [x["name"] for x in (w.facts.struct_fields(adt) or []) if x["ty"]["s"] == "usize"
+                 and any(("arg1", x["name"]) in ps for ps in E.stmt_writes[f].values()) and any(("arg1", x["name"]) in ps for ps in E.stmt_reads[f].values())]
+        for arr in arrs:
+            if not any(p[:2] == ("arg1", arr) for p in E.summaries[f].W):
+                continue
+            cover = []
+            seen = []
+            for cs in E.call_sites(f):
+                if not cs.term["args"]:
+                    continue
+                recv = WD.strip_names(T.operand(cs.term["args"][0], cs.point))
+                if not (recv[0] == "ref" and recv[2] == ("load", ("arg1", arr))):
+                    continue
+                nm = cs.callee.rsplit("::", 1)[-1]
+                if nm in ("index_mut", "index") and len(cs.term["args"]) == 2:
+                    r = WD.strip_names(T.operand(cs.term["args"][1], cs.point))
+                    seen.append(w.tstr(f, r))
+                    okr = False
+                    if r[0] == "adt" and r[1].endswith("RangeToInclusive") and r[4] and r[4][0][0] == "load" and r[4][0][1][0] == "arg1" and r[4][0][1][1] in marks:
+                        okr = True
+                    elif r[0] == "adt" and r[1].endswith("RangeFull"):
+                        okr = True
+                    elif r[0] == "adt" and r[1].endswith("::Range") and len(r[4]) == 2 and r[4][0] == ("const", 0) and r[4][1][0] == "binop" and r[4][1][1] == "Add" \
+                            and r[4][1][2][0] == "load" and r[4][1][2][1][1:2] and r[4][1][2][1][1] in marks and r[4][1][3] == ("const", 1):
+                        okr = True
+                    elif r[0] == "call" and r[1].endswith("RangeInclusive::<Idx>::new") and r[2][0] == ("const", 0) and r[2][1][0] == "load" and r[2][1][1][1:2] and r[2][1][1][1] in marks:
+                        okr = True
+                    if okr:
+                        cover.append(cs)
+                elif nm in ("fill", "iter_mut", "into_iter", "as_mut_slice"):
+                    seen.append("whole array (%s)" % nm)
+                    cover.append(cs)
+            # whole-array assignment `self.arr = [..]` / Default
+            whole = [pt for pt, ps in E.stmt_writes[f].items() if ("arg1", arr) in ps]
+            ctx.check(bool(cover) or bool(whole), "T7d", "%s.%s" % (f, arr),
+                      "%s clears `%s` only at %s (high-water mark(s): %s): cells the previous sequence used beyond that keep their values and leak into the next sequence" % (f, arr, seen or "single cells", marks),
+                      loc=w.fn_loc(f), sample={"fn": f, "storage": arr, "ranges": seen, "marks": marks})
+    ctx.floor("T7d", 2, "clear routines with a storage array")
+
     ctx.rule("T7b", "the clear routine resets every field a sequence can have written (intermediate, counter, all used parameters)")
     for f in sorted(clear_fns):
         must = w.mustwrite.must(f)
